@@ -40,3 +40,16 @@ add("C16", PBT_M + " at de-coupled joints; all 30 (driven,coupled) pairs enumera
 add("C17", "property-based testing: round trip rigid motion -> point images -> Frame::frame -> motion, oracle-decided rejection classes, model FK for forward_transformed",
     "Triples from well conditioned to nearly collinear, far from the origin, perturbations around the 5 mm tolerance (guard 1e-9), exactly collinear integer-built sources/targets with the expected error type and flag, Frame::translation, forward_transformed pose/answers/order.",
     "Trusted: conditioning bound 1e-13*(1+offset/scale)/sin(theta_min); harness model.", "DESIGN.md section 5, C17")
+
+add("C15", "property-based testing against an analytic (geometric) Jacobian built from the independent link model",
+    "Numeric Jacobian read through the public API equals (sign_i*(a_i x (p-o_i)); sign_i*a_i) within the differencing error for bare/Tool/Base/Tool-over-Base robots and steps 1e-7..1e-5; velocities invert it when cond < 1e4, torques are the transpose, isometry/vector/fixed entry points agree.",
+    "Trusted: harness model; bound 2*eps*(1+R) + 20e-15*(1+R)/eps.", "DESIGN.md section 5, C15")
+add("C18", "property-based testing with a seeded library RNG (verif_hooks) against the arc oracle and the constraints' own compliant()",
+    "Constraint sets of every shape (wrapping both positive / both negative / straddling zero / to==0, from-to > 2pi, equal, span >= 2pi), 100..300 draws each: every draw lies on its arc, is accepted by compliant(), and the call does not panic.",
+    "Trusted: oracle A; the hook only replaces the generator behind gen_range.", "DESIGN.md section 5, C18")
+add("C19", "round-trip and grammar-based property testing of the YAML reader/writer; byte/token mutation for the no-panic clause; coverage-guided fuzzing (libFuzzer target yaml_bytes) in the thorough tier",
+    "to_yaml -> file -> from_yaml_file round trips (lengths bit-equal, signs, dof, offsets to printed precision) over integral/decimal/extreme values and dof 5/6; every documented syntax variant rendered by an independent writer parses to the expected set; mutated and arbitrary documents give Ok or Err, never a panic.",
+    "Trusted: the renderer (harness/src/props/c19.rs) as the definition of 'documented format'; Rust float formatting round-trips.", "DESIGN.md section 5, C19")
+add("C20", "grammar-based property testing of the URDF extractor against by-construction expected values; negative documents; byte/token mutation and coverage-guided fuzzing (libFuzzer target urdf_bytes) in the thorough tier",
+    "Documents rendered from OPW values in all supported layouts, orders (720 permutations), nestings, naming decorations, limit syntaxes and with duplicated copies: extracted parameters/signs/limits bit-equal, consistent to_robot/constraints/parameters, unlimited joints unconstrained; missing joint / conflicting duplicate / truncated / non-numeric documents give Err; nothing panics.",
+    "Trusted: the renderer (harness/src/props/c20.rs); layouts outside the documented heuristics are not generated.", "DESIGN.md section 5, C20")
